@@ -15,7 +15,9 @@ from fractions import Fraction
 from .. import core, tlc, tlaval, dsdlio
 from . import c02
 
-def lit_text(v, rng):
+def lit_text(v, rng, dep=None):
+    """dep: a one-slot holder; a non-negative integer literal may be written as the constant K of the dependency
+    ns.Dep.1.0, whose file then defines K with this value (the same type name, with another value, case after case)."""
     t = v["t"]
     if t == "bool":
         return "true" if v["b"] else "false"
@@ -24,6 +26,9 @@ def lit_text(v, rng):
     if t == "type":
         return rng.choice(["", "", "saturated "]) + v["s"]
     n, d = v["n"], v["d"]
+    if d == 1 and n >= 0 and dep is not None and dep.get("k") is None and rng.random() < 0.2:
+        dep["k"] = n
+        return rng.choice(["ns.Dep.1.0.K", "Dep.1.0.K"])
     if d == 1:
         forms = [str(n), "0x%x" % n, "0X%X" % n, "0b" + bin(n)[2:], "0o" + oct(n)[2:]]
         s = rng.choice(forms)
@@ -38,10 +43,10 @@ def lit_text(v, rng):
     forms = [dec, dec.lstrip("0") if dec.startswith("0.") else dec, "%de-%d" % (int(dec.replace(".", "")), len(dec.split(".")[1])), dec + "e0", dec + "E+0"]
     return rng.choice(forms)
 
-def render(toks, rng, blanks=True):
+def render(toks, rng, blanks=True, dep=None):
     out = []
     for t in toks:
-        out.append(lit_text(t, rng) if isinstance(t, dict) else str(t))
+        out.append(lit_text(t, rng, dep) if isinstance(t, dict) else str(t))
     s = ""
     for i, t in enumerate(out):
         if i:
@@ -111,7 +116,8 @@ def worker(arg):
     rng = random.Random(seed * 1000003 + (hash(block) & 0xFFFFFF))
     exp = out["v"]
     diff = []
-    texts = [render(out["toks"], rng), render(out["full"], rng), render(out["toks"], rng, blanks=False)]
+    deps = [{"k": None}, {"k": None}, {"k": None}]
+    texts = [render(out["toks"], rng, dep=deps[0]), render(out["full"], rng, dep=deps[1]), render(out["toks"], rng, blanks=False, dep=deps[2])]
     n = 0
     for k, text in enumerate(texts):
         body = "@print %s\n" % text
@@ -120,7 +126,10 @@ def worker(arg):
             body += "uint64 X = %s\nuint8[<=%s] arr\n@assert %s == %d\n@extent (%s) * 800\n" % (text, text, text, exp["n"], text)
         else:
             body += "@sealed\n"
-        with dsdlio.Tree({"ns/A.1.0.dsdl": body}, "c04") as tr:
+        files = {"ns/A.1.0.dsdl": body}
+        if deps[k]["k"] is not None:
+            files["ns/Dep.1.0.dsdl"] = "uint64 K = %d\n@sealed\n" % deps[k]["k"]
+        with dsdlio.Tree(files, "c04") as tr:
             status, res, prints = dsdlio.read_ns(tr.path("ns"))
         n += 1
         if exp["t"] == "skip":
@@ -141,7 +150,7 @@ def worker(arg):
         if got != spec_value(exp):
             diff.append(("value", text, prints[0][2], tlaval.to_json(exp)))
         if extra:
-            t = res[0]
+            t = [x for x in res if x.short_name == "A"][0]
             c = t.constants[0].value.native_value
             cap = t.fields[0].data_type.capacity
             if c != exp["n"] or cap != exp["n"] or t.extent != exp["n"] * 800:
